@@ -19,6 +19,7 @@ import Driver.CTIR
 import Driver.GenDump
 import Driver.Listing
 import Driver.Asm
+import Driver.SM4Wrap
 open SMGo
 
 def parseBytes (s : String) : Option Bytes :=
@@ -115,6 +116,7 @@ def handle (line : String) : String :=
   if let some r := Driver.GenDump.handle toks then r else
   if let some r := Driver.Listing.handle toks then r else
   if let some r := Driver.Asm.handle toks then r else
+  if let some r := Driver.SM4Wrap.handle toks then r else
   match toks with
   | ["cmp", a, b, l] =>
     match parseOptBytes a, parseOptBytes b, l.toInt? with
